@@ -49,6 +49,13 @@ CLAIMED.update({
          "Trusted: go/ssa, symgo, the representation invariant in harness/C24, the timer model (callback may run once after Stop), mutex critical sections taken as atomic, z3. Outside: the Go scheduler/data races, packhandle wiring, pool sequences beyond the bounds."),
 })
 
+CLAIMED.update({
+ "C39": ("Solver verdict from an arbitrary pre-state: two reference names each absent or at one of three ids, a symbolic subset of the three objects present, one request of <= CMDS commands (duplicate names allowed) with old/new drawn from {zero,id1..3}: "
+         "after transport.updateReferences every stored value is what git's receive-pack rules give (a value changes only when the command's old value matches the current one, never to an id whose object is missing); "
+         "end to end through ReceivePack for delete requests the report-status says 'unpack ok' and ok/ng per command exactly as applied. Three genuine defects were found this way and repaired.",
+         "Trusted: go/ssa, symgo, memory.Storage executed as SSA, fmt.Sscanf run natively on concrete command lines, z3. Outside: concurrent pushes, hooks, pack reception, more than CMDS commands."),
+})
+
 NA_REASON = {
  "C05": "needs the real SHA-1 compression function on published collision blocks and Go's cross-package init order; the hash is necessarily an uninterpreted stub under symbolic execution",
  "C11": "read paths = OS filesystem + real zlib + caches over histories; solver-sized pieces are claimed under C06/C09/C10/C24",
